@@ -218,7 +218,9 @@ func (fr *frame) contractTouches(ct *FuncContract, names map[string]bool, all *b
 		return
 	}
 	for _, n := range ct.ModAll {
-		names[fc.resolveHeapName(n, ct.Pkg)] = true
+		for _, hn := range fc.resolveHeapNames(n, ct.Pkg) {
+			names[hn] = true
+		}
 	}
 	if !ct.Pure {
 		names["Alloc"] = true
@@ -470,20 +472,7 @@ func (fr *frame) loopEnv(li *loopInfo, st *State, phis map[*ssa.Phi]Term) *Env {
 			env.pkg = fr.fn.Pkg.Pkg.Path()
 		}
 	}
-	env.lookupAddr = func(name string) (CVal, bool) {
-		for p := fr; p != nil; p = p.parent {
-			for _, b := range p.fn.Blocks {
-				for _, in := range b.Instrs {
-					if al, ok := in.(*ssa.Alloc); ok && al.Comment == name {
-						if r, ok := p.vals[al].(Term); ok {
-							return CVal{r, al.Type()}, true
-						}
-					}
-				}
-			}
-		}
-		return CVal{}, false
-	}
+	env.lookupAddr = fr.lookupAddr
 	env.lookup = func(name string) (CVal, bool) {
 		if !fr.top {
 			for _, p := range fr.fn.Params {
@@ -647,6 +636,23 @@ func (fr *frame) lookupVarAt(name string, at *ssa.BasicBlock) (CVal, bool) {
 	v := fr.val(best)
 	if t, ok := v.(Term); ok {
 		return CVal{t, withReg(best.Type(), fr.fc.e.regionOf(best))}, true
+	}
+	return CVal{}, false
+}
+
+// lookupAddr: the cell of the address-taken (captured) local variable or parameter `name` of this
+// frame or of a frame it is inlined into.
+func (fr *frame) lookupAddr(name string) (CVal, bool) {
+	for p := fr; p != nil; p = p.parent {
+		for _, b := range p.fn.Blocks {
+			for _, in := range b.Instrs {
+				if al, ok := in.(*ssa.Alloc); ok && al.Comment == name {
+					if r, ok := p.vals[al].(Term); ok {
+						return CVal{r, al.Type()}, true
+					}
+				}
+			}
+		}
 	}
 	return CVal{}, false
 }
